@@ -29,6 +29,7 @@ type c16In struct {
 	Fail      int   `json:"fail"`
 	Finally   int   `json:"finally"`
 	ErrListenerMS int `json:"err_listener_ms,omitempty"` // >0: the body registers an error listener that takes this long
+	SpawnLock bool  `json:"spawn_lock,omitempty"` // spawned tasks ask for a named lock
 	SpawnFail bool  `json:"spawn_fail,omitempty"` // the last spawning command fails itself right after spawning
 	Spawn     bool  `json:"spawn,omitempty"` // nested tasks are started without waiting for them (the body goes on while they work)
 	KillBody  bool  `json:"kill_body,omitempty"` // the failing command of the body kills its scope instead of returning an error
@@ -63,6 +64,7 @@ func c16Gen(r *Rand, tier string) interface{} {
 	}
 	in.Spawn = len(in.Nested) > 0 && r.Bool()
 	in.SpawnFail = in.Spawn && r.Chance(1, 3)
+	in.SpawnLock = in.Spawn && r.Bool()
 	return in
 }
 
@@ -85,12 +87,16 @@ func (in *c16In) body() string {
 		}
 		for j, pos := range in.Nested {
 			if pos == k && in.Spawn && !in.NestFail[j] {
+				lock := ""
+				if in.SpawnLock {
+					lock = fmt.Sprintf(" --lock=sl%d", j)
+				}
 				if in.SpawnFail && j == len(in.Nested)-1 {
 					// the command that spawned the task fails at once: the body is over while the task works
-					fmt.Fprintf(&sb, "spawn --id=b.n%d --ms=%d --failid=b\n", j, in.NestMS[j])
+					fmt.Fprintf(&sb, "spawn --id=b.n%d --ms=%d%s --failid=b\n", j, in.NestMS[j], lock)
 					continue
 				}
-				fmt.Fprintf(&sb, "spawn --id=b.n%d --ms=%d\n", j, in.NestMS[j])
+				fmt.Fprintf(&sb, "spawn --id=b.n%d --ms=%d%s\n", j, in.NestMS[j], lock)
 				continue
 			}
 			if pos == k {
